@@ -45,14 +45,12 @@ func computeReservedNamesForScope(scope *js_ast.Scope, symbols ast.SymbolMap, na
 		}
 	}
 
-	// If there's a direct "eval" somewhere inside the current scope, continue
-	// traversing down the scope tree until we find it to get all reserved names
-	if scope.ContainsDirectEval {
-		for _, child := range scope.Children {
-			if child.ContainsDirectEval {
-				computeReservedNamesForScope(child, symbols, names)
-			}
-		}
+	// Symbols in nested scopes can also be pinned: everything visible to a direct
+	// "eval", names referenced inside a "with" statement, and "arguments". A
+	// generated name must not collide with any of them, so traverse the whole
+	// scope tree to get all reserved names
+	for _, child := range scope.Children {
+		computeReservedNamesForScope(child, symbols, names)
 	}
 }
 
